@@ -1165,14 +1165,47 @@ class RResampler:
 
 
 def describe_callable(interp, f):
-    """canonical text of a small aggregation callable (lambda x: np.sqrt(np.sum(np.square(x))))"""
-    from .values import SFunc
-    if isinstance(f, SFunc):
-        body = f.node.body if isinstance(f.node, ast.Lambda) else f.node
-        return ast.unparse(body).replace(" ", "")
+    """what a small aggregation callable computes, decided SEMANTICALLY where possible: the callable is executed on a vector of three symbolic
+    numbers and its result compared (by the solver) with the sum, the mean and the root-sum-square of that vector -- whatever its spelling (lambda,
+    nested def, named temporaries).  Anything else is described by its text ('text:...'), which a contract can only `recognise`, not `check`."""
+    from .values import SFunc, SArr
     if isinstance(f, str):
         return f
-    return repr(f)
+    if not isinstance(f, SFunc):
+        return "text:" + repr(f)
+    run = interp.run
+    xs = [run.fresh_real("agg_probe") for _ in range(3)]
+    try:
+        r = interp.call(f, [SArr(xs)], {}, None, None)
+        r = to_real(r)
+    except Exception as e:  # noqa  (unsupported construct, symbolic raise ...: fall back to the text)
+        import os
+        if os.environ.get("VERIF_DEBUG"):
+            import traceback
+            traceback.print_exc()
+        r = None
+    if r is not None and is_z3(r):
+        tot = xs[0] + xs[1] + xs[2]
+        sq = xs[0] * xs[0] + xs[1] * xs[1] + xs[2] * xs[2]
+        for label, goal in (("sum", r == tot), ("mean", r * 3 == tot), ("root_sum_square", z3.And(r >= 0, r * r == sq))):
+            try:
+                st, _, _ = run._prove(goal)
+            except Exception:  # noqa
+                st = "unknown"
+            if st == "discharged":
+                return label
+    # canonical text: the (single) parameter is called x, notnull / isnull are spelt notna / isna
+    import copy
+    node = copy.deepcopy(f.node)
+    params = [a.arg for a in node.args.args] if hasattr(node, "args") else []
+    if len(params) == 1:
+        for n in ast.walk(node):
+            if isinstance(n, ast.Name) and n.id == params[0]:
+                n.id = "x"
+    body = node.body if isinstance(node, ast.Lambda) else node
+    if isinstance(body, list):
+        body = body[-1].value if len(body) == 1 and isinstance(body[0], ast.Return) else node
+    return "text:" + ast.unparse(body).replace(" ", "").replace("notnull()", "notna()").replace("isnull()", "isna()")
 
 
 class RAgg:
